@@ -348,7 +348,9 @@ func genGA(rng *rand.Rand) Case {
 		c.Stat = append(c.Stat, "ga-"+kind+"-"+f.input[0])
 	}
 	gen := map[string]func() string{
-		"g":   func() string { return []string{"s:" + hx("x"), "s:" + hx("y"), "s:" + hx("x"), "n", "i:1", "s:" + hx("z")}[rng.Intn(6)] },
+		"g": func() string {
+			return []string{"s:" + hx("x"), "s:" + hx("y"), "s:" + hx("x"), "n", "i:1", "s:" + hx("z")}[rng.Intn(6)]
+		},
 		"h":   func() string { return []string{"s:" + hx("p"), "s:" + hx("q"), "n"}[rng.Intn(3)] },
 		"a":   func() string { return genInput(rng, "sum", false) },
 		"b":   func() string { return genInput(rng, "sum", false) },
